@@ -37,4 +37,96 @@ theorem defaultCores_le (cfg : Cfg) (hwf : WF cfg.t) : defaultCores cfg ≤ avai
 
 theorem defaultThreads_eq (cfg : Cfg) : defaultThreads cfg = avail cfg := rfl
 
+
+/-! ## `--pika:cores` while the process mask is used -/
+
+/-- the same request with another `max_cores` -/
+def withCores (cfg : Cfg) (k : Nat) : Cfg := { cfg with maxCores := k }
+
+theorem effCores_withCores (cfg : Cfg) (k : Nat) (h : cfg.usePm = true) :
+    effCores (withCores cfg k) = effCores cfg := by
+  simp [effCores, withCores, h]
+
+theorem compactLoop_withCores (cfg : Cfg) (k : Nat) (h : cfg.usePm = true) : ∀ f s,
+    compactLoop (withCores cfg k) f s = compactLoop cfg f s := by
+  intro f
+  induction f with
+  | zero => intro s; rfl
+  | succ f ih =>
+    intro s
+    have hp : compactPass (withCores cfg k) s = compactPass cfg s := by
+      unfold compactPass; rw [effCores_withCores cfg k h]; rfl
+    simp only [compactLoop, hp]
+    cases compactPass cfg s with
+    | fin s' => rfl
+    | err => rfl
+    | run s' => simp only [ih]
+
+theorem scatterLoop_withCores (cfg : Cfg) (k : Nat) (h : cfg.usePm = true) : ∀ f s,
+    scatterLoop (withCores cfg k) f s = scatterLoop cfg f s := by
+  intro f
+  induction f with
+  | zero => intro s; rfl
+  | succ f ih =>
+    intro s
+    have hp : scatterPass (withCores cfg k) s = scatterPass cfg s := by
+      unfold scatterPass; rw [effCores_withCores cfg k h]; rfl
+    simp only [scatterLoop, hp]
+    cases scatterPass cfg s with
+    | fin s' => rfl
+    | err => rfl
+    | run s' => simp only [ih]
+
+theorem balLoop_withCores (cfg : Cfg) (k off goal ncores : Nat) : ∀ f s,
+    balLoop (withCores cfg k) off goal ncores f s = balLoop cfg off goal ncores f s := by
+  intro f
+  induction f with
+  | zero => intro s; rfl
+  | succ f ih =>
+    intro s
+    have hp : balPass (withCores cfg k) off goal ncores s = balPass cfg off goal ncores s := rfl
+    simp only [balLoop, hp]
+    cases balPass cfg off goal ncores s with
+    | fin s' => rfl
+    | err => rfl
+    | run s' => simp only [ih]
+
+theorem balPhase1_withCores (cfg : Cfg) (k off goal ncores : Nat) :
+    balPhase1 (withCores cfg k) off goal ncores = balPhase1 cfg off goal ncores := by
+  unfold balPhase1; rw [balLoop_withCores]
+
+theorem numaSockets_withCores (cfg : Cfg) (k : Nat) : ∀ shares n s,
+    numaSockets (withCores cfg k) shares n s = numaSockets cfg shares n s := by
+  intro shares
+  induction shares with
+  | nil => intro n s; rfl
+  | cons x rest ih =>
+    intro n s
+    simp only [numaSockets, balPhase1_withCores, ih]
+    rfl
+
+theorem numaShares_withCores (cfg : Cfg) (k P : Nat) : ∀ m n t2,
+    numaShares (withCores cfg k) P m n t2 = numaShares cfg P m n t2 := by
+  intro m
+  induction m with
+  | zero => intro n t2; rfl
+  | succ j ih => intro n t2; simp only [numaShares, ih]; rfl
+
+/-- **`--pika:cores` is without effect while the process mask is used** -/
+theorem decode_withCores (m : Mode) (cfg : Cfg) (k : Nat) (h : cfg.usePm = true) :
+    decode m (withCores cfg k) = decode m cfg := by
+  have ht : tooMany (withCores cfg k) = tooMany cfg := rfl
+  have hn : (withCores cfg k).n = cfg.n := rfl
+  cases m with
+  | compact => simp only [decode, decodeCompact, ht, hn, compactLoop_withCores cfg k h]
+  | scatter => simp only [decode, decodeScatter, ht, hn, scatterLoop_withCores cfg k h]
+  | balanced =>
+    simp only [decode, decodeBalanced, ht, hn, effCores_withCores cfg k h, balPhase1_withCores]
+    rfl
+  | numaBalanced =>
+    have hp : numaPusT (withCores cfg k) = numaPusT cfg := rfl
+    have hs : numSockets (withCores cfg k).t = numSockets cfg.t := rfl
+    simp only [decode, decodeNuma, ht, hp, hs, numaShares_withCores, numaSockets_withCores]
+
+
 end PikaVerif.Aff
